@@ -162,6 +162,9 @@ func (p *panicErr) Error() string { return fmt.Sprintf("panic: %v", p.v) }
 
 // guard runs f and converts a panic of the code under test into an error.
 func guard(f func() error) (err error) {
+	if s := sim.S; s != nil {
+		s.BeginCall()
+	}
 	defer func() {
 		if v := recover(); v != nil {
 			if _, ok := v.(interface{ infra() }); ok {
